@@ -29,7 +29,7 @@ def alphabet(world, prop):
     if prop == 'C03':
         ev.append(('DISPATCH', 0))
     ocs = {'C01': ('ok-new', 'ok-old', 'fail'), 'C03': ('ok-new', 'ok-old', 'fail'),
-           'C04': OUTCOMES, 'C05': ('ok-new', 'fail'), 'C02': ('ok-new', 'ok-old', 'fail')}[prop]
+           'C04': OUTCOMES, 'C05': ('ok-new', 'fail'), 'C02': ('ok-11', 'ok-10', 'ok-01', 'ok-00', 'fail')}[prop]
     for which in ('oldest', 'newest'):
         for oc in ocs:
             ev.append(('REPLY', which, oc))
@@ -127,6 +127,33 @@ def mon_c05_failure(w, unit, before, after, chron_before, resp, oc):
     rt.require((e['status'], e['task'], e['target'], e['runid']) == (want, tag, tgt, resp.runid), 'c05:history-entry', str(e))
 
 
+def mon_c02_step(w, unit, before, after, resp):
+    """after a success reply: exactly the direct dependents whose declared inputs
+    intersect the new values are organised for the reporting target"""
+    tag, tgt = unit
+    new = {'.'.join(v.split('.')[2:]) for v, isnew in resp.values if isnew}
+    known = list(w.known_targets)
+    for t in w.order:
+        if t == tag:
+            continue
+        a = w.ae.alg(*t.split('.'))
+        needs = set(w.ae.inputs(a)) & new
+        b_todo, a_todo = set(before[t][0]), set(after[t][0])
+        if needs:
+            rt.nontrivial()
+            if w.kind[t] == 'analysis':
+                want = {'__all__'}
+            elif tgt == '__all__':
+                want = set(known)
+            else:
+                want = {tgt}
+            rt.require(want <= a_todo, 'c02:dependent-not-triggered', f'{tag}[{tgt}] reported new {sorted(new)}; {t} declares {sorted(needs)} but its todo is {sorted(a_todo)} (expected {sorted(want)})')
+            rt.require(a_todo <= b_todo | want, 'c02:extra-targets', f'{t}: todo {sorted(b_todo)} -> {sorted(a_todo)}, expected to add only {sorted(want)}')
+        else:
+            rt.require(a_todo <= b_todo, 'c02:triggered-without-new-input', f'{tag}[{tgt}] reported new {sorted(new)}; {t} declares none of them but its todo grew {sorted(b_todo)} -> {sorted(a_todo)}')
+    rt.require(set(after[tag][0]) <= set(before[tag][0]), 'c02:reporter-retriggered', f'{tag} re-queued itself')
+
+
 def mon_c03_reply(w, unit, chron_before, resp, oc, updates):
     tag, tgt = unit
     new = w.chron[chron_before:]
@@ -168,11 +195,14 @@ def hist_body(shape, prop, k, sel, drain=None, wkw=None):
                 before = w.snapshot()
                 cb = len(w.chron)
                 del w.updates[:]
-                suc = {'ok-new': True, 'ok-old': True, 'fail': False, 'invalid': None}[ev[2]]
-                resp = w.reply(idx, suc, newmask=[ev[2] == 'ok-new'])
+                suc = {'ok-new': True, 'ok-old': True, 'fail': False, 'invalid': None}.get(ev[2], True)
+                mask = [c == '1' for c in ev[2][3:]] if ev[2][:3] == 'ok-' and ev[2][3:].isdigit() else [ev[2] == 'ok-new']
+                resp = w.reply(idx, suc, newmask=mask)
                 after = w.snapshot()
                 if prop == 'C03':
                     mon_c03_reply(w, unit, cb, resp, ev[2], list(w.updates))
+                if prop == 'C02' and suc is True:
+                    mon_c02_step(w, unit, before, after, resp)
                 if prop == 'C05' and suc is not True:
                     mon_c05_failure(w, unit, before, after, cb, resp, ev[2])
             elif ev[0] == 'REQ':
